@@ -130,6 +130,18 @@ func checkVerify(c verifyCase) (h.Info, error) {
 	if !ok && beta != nil {
 		return info, fmt.Errorf("rejected proof returned a hash")
 	}
+	// same verdict when key, alpha and proof are adjacent sub-slices of one buffer; inputs unmodified
+	{
+		buf := append(append(append(make([]byte, 0, 32+len(c.Alpha)+len(c.Pi)+64), c.PK...), c.Alpha...), c.Pi...)
+		snap := append([]byte{}, buf...)
+		ok2, beta2 := vrf.Verify(vrf.PublicKey(buf[:32]), buf[32:32+len(c.Alpha)], buf[32+len(c.Alpha):])
+		if ok2 != ok || !bytes.Equal(beta2, beta) {
+			return info, fmt.Errorf("Verify(pk=%x, alpha=%x, pi=%x) = %v when the arguments are adjacent sub-slices of one buffer, %v otherwise", []byte(c.PK), []byte(c.Alpha), []byte(c.Pi), ok2, ok)
+		}
+		if !bytes.Equal(buf, snap) {
+			return info, fmt.Errorf("Verify modified the caller's buffer")
+		}
+	}
 	if ok {
 		if !bytes.Equal(beta, wantBeta) {
 			return info, fmt.Errorf("accepted proof hash %x, reference %x", beta, wantBeta)
